@@ -86,7 +86,9 @@ theorem validate_keeps_setpoint (c : ChanState) (p : PulseIn) (ref : Option Rat)
     · cases h
     · split at h
       · cases h
-      · injection h with h; subst h; exact ⟨rfl, rfl, rfl, rfl⟩
+      · split at h
+        · cases h
+        · injection h with h; subst h; exact ⟨rfl, rfl, rfl, rfl⟩
 
 /-- **Every EOM pulse is square with exactly the block's setpoint**: the pulse that
 `add_eom_pulse` hands to the scheduler is the constant pulse `(amp_on, detuning_on)` of the
